@@ -350,7 +350,10 @@ def pywbem_urllib3_exception(exc, conn):
         if exc_name == 'ReadTimeoutError':
             m = re.search(r'\(read timeout=([0-9\.]+)\)', exc_message)
             if m:
-                read_timeout = float(m.group(1))
+                try:
+                    read_timeout = float(m.group(1))
+                except ValueError:
+                    read_timeout = None  # not a number, e.g. '1.2.3'
                 if read_timeout == HTTP_CONNECT_TIMEOUT:
                     exc_message = (
                         f"Could not send request to {conn.url} within "
